@@ -1095,8 +1095,7 @@ def fixpoint_history(ctx: Ctx, rng: random.Random, res: SearchResult, hist: Coun
 			if wrong:
 				res.findings.append(Finding(key='header-hash-wrong', what=f'after a forced run {wrong}', replay=replay))
 				hist['finding:header-hash-wrong'] += 1
-				break
-			if again and (a[0], a[1]) == (b[0], b[1]):
+			if again and not wrong and (a[0], a[1]) == (b[0], b[1]):
 				# files that need no regeneration are left untouched: right after a plain run nothing needs regeneration
 				by_path: dict[str, list[str]] = {}
 				for m in case.graph:
@@ -1115,6 +1114,8 @@ def fixpoint_history(ctx: Ctx, rng: random.Random, res: SearchResult, hist: Coun
 				res.findings.append(Finding(key=key, what=f'plain run ≠ forced run on the same project state: {why}; {note}',
 					replay={'search': 'fixpoint', 'shape': shape, 'variants': variants, 'dirs': init_dirs, 'lang': lang, 'ops': list(done)}))
 				hist[f'finding:{key}'] += 1
+				break
+			if wrong:
 				break
 		if i == total:
 			break
